@@ -175,3 +175,14 @@ func VerifC20NonceFree() {
 	}
 	symAssert(found, "the reload script carries one of the nonces the page's CSP accepts for scripts")
 }
+
+// ---- modifyResponse bookkeeping ----
+
+var verifNonceSeen string
+
+// verifInsertStub replaces insertScriptTagIntoBody under symgo (x/net/html is outside the
+// engine): it appends a marker carrying the nonce it was given.
+func verifInsertStub(nonce, body string) (string, error) {
+	verifNonceSeen = nonce
+	return body + "<RELOAD nonce=" + nonce + ">", nil
+}
